@@ -254,3 +254,154 @@ mut('c13-regex-no-start', 'C13', 'data.py',
 mut('c13-linecol-last-line', 'C13', 'utils.py',
     """            char_no = min(char_pos - line_start - 1, self.src_len - line_start)""",
     """            char_no = min(char_pos - line_start - 1, 5)""")
+
+# ---------------------------------------------------------------- C06 ------
+mut('c06-string-stops-at-tilde', 'C06 C19', 'tokens.py',
+    """            CC.BracketEnd,
+            CC.Comment):
+        result += next(text)""",
+    """            CC.BracketEnd,
+            CC.Active if text.peek(1) and text.peek(1).category == CC.Active else CC.Comment,
+            CC.Comment):
+        result += next(text)""")
+mut('c06-peek-reraises-indexerror', 'C06 C20', 'utils.py',
+    """        except IndexError:
+            return None
+
+    def __next__(self):""",
+    """        except IndexError:
+            if isinstance(j, int) and j > 0:
+                raise
+            return None
+
+    def __next__(self):""")
+mut('c06-read-arg-valueerror', 'C06', 'reader.py',
+    """    if tolerance == 0:
+        clo = CharToLineOffset(str(src))
+        line, offset = clo(c.position)
+        raise TypeError(""",
+    """    if tolerance == 0:
+        clo = CharToLineOffset(str(src))
+        line, offset = clo(c.position)
+        if len(content) > 5:
+            raise ValueError('unbalanced')
+        raise TypeError(""")
+mut('c06-unclosed-handler-indexes-empty', 'C06', 'reader.py',
+    """    explanation = 'Instead got %s' % end if end else 'Reached end of file.'
+    line, offset = clo(src.position)""",
+    """    explanation = 'Instead got %s' % end if end else 'Reached end of file.'
+    line, offset = clo(src.position)
+    last_break = clo.line_break_positions[-1] if end and len(str(end)) == 1 else 0""")
+mut('c06-tolerant-math-recurses', 'C06', 'reader.py',
+    """    if not src.hasNext() or src.peek().category != expr.token_end:
+        unclosed_env_handler(src, expr, src.peek())
+    next(src)""",
+    """    if not src.hasNext() or src.peek().category != expr.token_end:
+        if tolerance and not src.hasNext():
+            return expr.contents[0]
+        unclosed_env_handler(src, expr, src.peek())
+    next(src)""")
+mut('c06-item-peek-full-command', 'C06', 'reader.py',
+    """            name, _ = make_read_peek(read_command)(
+                src, 0, 0, skip=1, tolerance=tolerance, mode=mode)
+            if name == 'end':""",
+    """            name, _ = make_read_peek(read_command)(
+                src, skip=1, tolerance=tolerance, mode=mode)
+            if name == 'end':""")
+
+# ---------------------------------------------------------------- C07 ------
+mut('c07-tolerant-env-drops-contents', 'C07', 'reader.py',
+    """    elif not error:
+        # consume the `\\end{name}`, including any whitespace before the brace
+        read_command(src, 1, 0, skip=1, tolerance=tolerance, mode=mode)
+    expr.append(*contents)""",
+    """    elif not error:
+        # consume the `\\end{name}`, including any whitespace before the brace
+        read_command(src, 1, 0, skip=1, tolerance=tolerance, mode=mode)
+    elif len(contents) > 3:
+        contents = contents[:-1]
+    expr.append(*contents)""")
+mut('c07-tolerance-not-threaded-to-signature-args', 'C07', 'reader.py',
+    """        if src.hasNext() and src.peek().category == TC.GroupBegin:
+            args.append(read_arg(
+                src, next(src), tolerance=tolerance, mode=mode))""",
+    """        if src.hasNext() and src.peek().category == TC.GroupBegin:
+            args.append(read_arg(
+                src, next(src), tolerance=tolerance if n_required < 0 else 0, mode=mode))""")
+mut('c07-tolerant-arg-loses-last', 'C07', 'reader.py',
+    """            'Just finished parsing: %s' %
+            (line, offset, c, content))
+    return arg(*content[1:], position=c.position)""",
+    """            'Just finished parsing: %s' %
+            (line, offset, c, content))
+    return arg(*content[1:-1] if len(content) > 4 else content[1:], position=c.position)""")
+mut('c07-tolerance-changes-spacer', 'C07', 'reader.py',
+    """        spacer = read_spacer(src)
+        if not (src.hasNext() and src.peek().category == TC.BracketBegin):
+            if spacer:""",
+    """        spacer = read_spacer(src)
+        if not (src.hasNext() and src.peek().category == TC.BracketBegin):
+            if spacer and not (tolerance and '\\t' in spacer):""")
+mut('c07-optional-arg-strict-inside-tolerant', 'C07', 'reader.py',
+    """        args.append(read_arg(src, next(src), tolerance=tolerance, mode=mode))
+        n_optional -= 1""",
+    """        args.append(read_arg(src, next(src), tolerance=0, mode=mode))
+        n_optional -= 1""")
+
+# ---------------------------------------------------------------- C08 ------
+mut('c08-required-drops-spacer-always', 'C08 C01', 'reader.py',
+    """        if spacer:
+            src.backward(1)
+        break
+    return n_required""",
+    """        if spacer and '\\n' in spacer:
+            src.backward(1)
+        break
+    return n_required""")
+mut('c08-text-str-strips-cr', 'C08', 'data.py',
+    """        return str(self._text)
+
+    def __repr__(self):
+        \"\"\"
+        >>> TexText('asdf')""",
+    """        return str(self._text).replace('#~', '#')
+
+    def __repr__(self):
+        \"\"\"
+        >>> TexText('asdf')""")
+mut('c08-item-adds-space', 'C08 C16 C01', 'data.py',
+    """        if self._contents:
+            return '\\\\%s%s%s' % (self.name, self.args, ''.join(
+                [str(e) for e in self._contents]))""",
+    """        if self._contents:
+            return '\\\\%s%s%s%s' % (self.name, self.args,
+                ' ' if self.args and not str(self._contents[0])[:1].isspace() else '', ''.join(
+                [str(e) for e in self._contents]))""")
+mut('c08-revert-end-forward5', 'C08', 'reader.py',
+    """        read_command(src, 1, 0, skip=1, tolerance=tolerance, mode=mode)
+    expr.append(*contents)""",
+    """        src.forward(5)
+    expr.append(*contents)""")
+
+# ---------------------------------------------------------------- C16 ------
+mut('c16-cmd-prints-space-before-bracket', 'C16 C01 C08', 'data.py',
+    """        return '\\\\%s%s' % (self.name, self.args)
+
+    def __repr__(self):
+        if not self.args:
+            return "TexCmd('%s')" % self.name""",
+    """        if len(self.args) > 1 and isinstance(self.args[0], BraceGroup) \\
+                and isinstance(self.args[1], BracketGroup):
+            return '\\\\%s%s %s' % (self.name, self.args[0], ''.join(map(str, self.args[1:])))
+        return '\\\\%s%s' % (self.name, self.args)
+
+    def __repr__(self):
+        if not self.args:
+            return "TexCmd('%s')" % self.name""")
+mut('c16-env-name-printed-lowercase-end', 'C16 C01', 'data.py',
+    """    @property
+    def end(self):
+        return r"\\end{%s}" % self.name""",
+    """    @property
+    def end(self):
+        return r"\\end{%s}" % (self.name if self.name != 'Verbatim' else 'verbatim')""")
